@@ -21,6 +21,8 @@ def prop(line, impl, model):
     if impl.startswith("!panic") or impl == "!died":
         return "implementation panicked/died: " + impl[:200]
     try:
+        if op == "jsoak":
+            return (prop_jsoak(line, impl) or (None, None))[1]
         if impl.startswith("!"):
             return None
         if op == "ipc":
@@ -37,6 +39,8 @@ def prop(line, impl, model):
             return (prop_jwf(line, impl) or (None, None))[1]
         if op == "jipcf":
             return (prop_jipcf(line, impl) or (None, None))[1]
+        if op == "jconc":
+            return (prop_jconc(line, impl) or (None, None))[1]
         if op == "sched":
             return prop_sched(line, impl)
         if op == "bin":
@@ -127,6 +131,9 @@ def spec_ipc(ops, geo=True):
         elif f[0] == "cm":
             ev["matched"] += 1
             bump("cp.%d.1" % int(f[1]))
+        elif f[0] == "gl":
+            # LoadGeoipDatabases replaces the table and nothing else: the figures of the running period stay
+            geo = f[1] != "0"
         elif f[0] == "pr":
             r = {k: bin8(v) for k, v in ev.items()}
             for u in range(4):
@@ -165,7 +172,7 @@ def prop_ipc(line, impl):
                 got_cc = {x[3:]: y for x, y in g.items() if x.startswith("cc.")}
                 if got_cc != {c: str(n) for c, n in v.items()}:
                     return ("country figures in report %d are %s; counting each (proxy type, address) pair once, at its first accepted "
-                            "poll of the period, gives %s" % (i + 1, got_cc, v))
+                            "poll of the period, with the geoip table loaded at that moment (reloads change no count), gives %s" % (i + 1, got_cc, v))
                 continue
             if g.get(k) != str(v):
                 what = ("unique-address figure" if k.startswith("ips") else
@@ -216,12 +223,49 @@ def geo_table():
     return tab
 
 
+def alt_cc(c):
+    """the country of a range in the second pair of geoip files: the code reversed (ZZ when that is the same)"""
+    return c[::-1] if c[::-1] != c else "ZZ"
+
+
+def write_alt_geoip():
+    """a second pair of geoip files: the ranges of the repo's test files, every range in another country"""
+    d = os.path.join(vlib.TMP, "c19_geoip_alt_%d" % os.getpid())
+    os.makedirs(d, exist_ok=True)
+    for name in ("test_geoip", "test_geoip6"):
+        out = []
+        for l in open(os.path.join(vlib.REPO, "broker", name)):
+            f = l.rstrip("\n").split(",")
+            if l.startswith("#") or len(f) != 3:
+                out.append(l.rstrip("\n"))
+            else:
+                out.append(",".join(f[:2] + [alt_cc(f[2])]))
+        open(os.path.join(d, name), "w").write("\n".join(out) + "\n")
+    return d
+
+
+def apply_db(geo, ops):
+    """the generators write every poll with the country of the repo's files; polls issued while the second pair
+    is loaded (after gl,2) resolve to that pair's country"""
+    db, out = (1 if geo else 0), []
+    for o in ops:
+        f = o.split(",")
+        if f[0] == "gl":
+            db = int(f[1])
+        elif f[0] == "pp" and f[1] != "-" and db == 2:
+            f[2] = alt_cc(f[2])
+            o = ",".join(f)
+        out.append(o)
+    return out
+
+
 def gen_ipc(ctx):
     rng = ctx.rng
     thorough = ctx.tier == "thorough"
     tab = geo_table()
     lines, kinds = [], []
     def add(geo, ops, k):
+        ops = apply_db(geo, ops)
         lines.append("%s ipc %d %s" % (AREA, geo, ";".join(ops) if ops else "-")); kinds.append(k)
     def poll(out, addr=None, t=None, n=None, relay=None):
         a, c = addr if addr else rng.choice(tab[:6] if rng.random() < 0.7 else tab)
@@ -237,7 +281,7 @@ def gen_ipc(ctx):
         return [poll("m", n=n), ("ct,%d" if timeout else "cm,%d") % cn]
     # exhaustive: all sequences of <= 3 fast ops over a small alphabet, one report at the end
     alpha = [["pb"], ["pp,1.2.3.4,US,0,1,1,r"], ["pp,1.2.3.4,US,0,1,1,m", "cm,2"], ["pp,1.2.3.4,US,5,2,0,m", "cm,0"],
-             ["pp,129.97.208.23,CA,0,2,1,m", "cm,1"], ["cd,2"], ["ze"]]
+             ["pp,129.97.208.23,CA,0,2,1,m", "cm,1"], ["cd,2"], ["ze"], ["gl,2"]]
     seqs = [[]]
     for depth in range(3 if not thorough else 4):
         seqs = seqs + [sq + [x] for sq in seqs if len(sq) == depth for x in alpha]
@@ -261,6 +305,8 @@ def gen_ipc(ctx):
                     ops.append("cd,%d" % rng.randrange(3))
                 elif r < 0.85:
                     ops.append("pb")
+                elif r < 0.9:
+                    ops.append("gl,%d" % rng.choice([1, 2, 2, 0]))     # SIGHUP in the middle of a period
                 else:
                     ops += matched_pair()
             ops.append("pr")
@@ -284,6 +330,34 @@ def gen_ipc(ctx):
             for (ad, t, n) in seq:
                 ops += [poll("m", addr=ad, t=t, n=n), "cm,%d" % (2 if n in (0, 1) else 0)]
             add(g, ops + ["pr", "ze"] + ops[-2:] + ["pr"], "ipc-nat-and-country-first-sighting")
+    # geoip reload (SIGHUP) at every point of a period: the same table again, a table with other countries, a load that
+    # fails (no table afterwards) and a good one after it; addresses seen before the reload poll again after it
+    # (same type: de-duplicated; other type: a new first sighting under the new table), new addresses arrive
+    c3 = tab[2] if len(tab) > 2 else tab[0]
+    d4 = tab[4] if len(tab) > 4 else tab[0]
+    def unit(ad, t, n):
+        return [poll("m", addr=ad, t=t, n=n), "cm,%d" % (2 if n in (0, 1) else 0)]
+    before = [unit(a, 0, 1), unit(b, 0, 2), unit(a, 1, 0), unit(c3, 5, 1)]
+    after = [unit(a, 0, 2), unit(b, 1, 1), unit(d4, 0, 0), unit(c3, 6, 2)]
+    for reload in (["gl,1"], ["gl,2"], ["gl,0"], ["gl,0", "gl,1"], ["gl,2", "gl,1"]):
+        for pos in range(len(before) + 1):
+            for g in (1, 0):
+                ops = [o for u in before[:pos] for o in u] + reload + [o for u in before[pos:] + after for o in u]
+                add(g, ops + ["pr"], "ipc-geoip-reload-in-period")
+        ops = [o for u in before for o in u] + ["pr", "ze"] + reload + [o for u in after for o in u] + ["pr"]
+        add(1, ops, "ipc-geoip-reload-after-period-end")
+        ops = [o for u in before for o in u] + reload + ["pr", "ze"] + [o for u in after for o in u] + ["pr"]
+        add(1, ops, "ipc-geoip-reload-before-period-end")
+    for _ in range(20 if not thorough else 300):
+        ops = []
+        for _ in range(rng.randrange(2, 10)):
+            if rng.random() < 0.3:
+                ops.append("gl,%d" % rng.choice([1, 2, 2, 0]))
+            elif rng.random() < 0.1:
+                ops += ["pr", "ze"]
+            else:
+                ops += unit(rng.choice(tab[:5]), rng.choice([0, 0, 1, 4, 5]), rng.randrange(3))
+        add(rng.choice([1, 1, 0]), ops + ["pr"], "ipc-geoip-reload-random")
     # slow cases: idle polls (10 s broker timeout) and client timeouts, placed just before a report
     for _ in range(6 if not thorough else 60):
         ops = []
@@ -535,6 +609,161 @@ def gen_jipc(ctx):
     return lines, kinds
 
 
+# ---------------------------------------------------------------- concurrent polls, slow journal disk
+def prop_jconc(line, impl):
+    """Concurrent polls through IPC.ProxyPolls while a journal Write is held open.  On the implementation's own journal
+    (its timestamps, the membership of every polled address in every chunk): every accepted poll's address is in a chunk
+    whose span meets the time the poll was in flight, in no chunk it has no business in, no span is flushed twice, the
+    chunks tile the time line.  -> None or (key, text)"""
+    a = line.split(" ")
+    toks = a[3].split(",") if a[3] != "-" else []
+    acc, hold, first_after_h = [], False, False
+    for tk in toks:
+        if tk[0] == "h":
+            hold, first_after_h = True, True
+        elif tk[0] == "r":
+            hold = False
+        elif tk[0] == "p":
+            t, ip, ty, out = tk[1:].split(".")
+            if out == "a":
+                acc.append(dict(t=int(t), ip=ip, ty=int(ty), conc=hold and not first_after_h))
+            first_after_h = False
+    closed = bool(toks) and toks[-1][0] == "f"
+    d = kv(impl)
+    chunks = [tuple(map(int, c.split(":"))) for c in d["chunks"].split(";")] if d["chunks"] != "-" else []
+    memb = [([] if m == "-" else [int(x) for x in m.split("+")]) for m in d["memb"].split(",")] if d["memb"] != "-" else []
+    ret = [int(x) for x in d["ret"].split(",")] if d["ret"] != "-" else []
+    if len(memb) != len(acc) or len(ret) != len(acc):
+        return ("journal-broker", "%d accepted polls, %d membership items" % (len(acc), len(memb)))
+    for p, m, r in zip(acc, memb, ret):
+        p["in"], p["ret"] = m, r
+        if r < p["t"]:
+            return ("journal-broker", "the poll of %s at %d did not return (returned at %d)" % (p["ip"], p["t"], r))
+    for p in acc:
+        if closed and not p["in"]:
+            if p["conc"]:
+                return ("journal-poll-lost-during-flush",
+                        "address %s polled at instant %d (ProxyPolls returned at %d) while another poll's journal flush was waiting for the "
+                        "disk: it is in NO chunk of the journal %s - an accepted poll that the distinct-IP journal never counts"
+                        % (p["ip"], p["t"], p["ret"], d["chunks"]))
+            return ("journal-poll-not-recorded", "address %s polled at instant %d is in no chunk of the journal %s" % (p["ip"], p["t"], d["chunks"]))
+    prev = 0
+    for i, (s, e, card) in enumerate(chunks):
+        if s != prev or e < s:
+            twin = [c for c in chunks[:i] if c[0] == s]
+            if twin:
+                return ("journal-chunk-written-twice", "chunk [%d,%d] starts where chunk [%d,%d] already started: the same recording span "
+                        "was flushed twice (journal %s)" % (s, e, twin[0][0], twin[0][1], d["chunks"]))
+            return ("journal-writer", "journal chunks do not tile the time line: chunk [%d,%d] follows instant %d" % (s, e, prev))
+        prev = e
+    for p in acc:
+        for j in p["in"]:
+            if j >= len(chunks):
+                return ("journal-broker", "membership in a chunk that does not exist")
+            s, e, _ = chunks[j]
+            if not any(q["ip"] == p["ip"] and q["t"] <= e and s <= q["ret"] for q in acc):
+                return ("journal-poll-misplaced", "chunk %d [%d,%d] holds address %s, which polled only at %s" %
+                        (j, s, e, p["ip"], ",".join("%d..%d" % (q["t"], q["ret"]) for q in acc if q["ip"] == p["ip"])))
+        if p["in"] and not any(p["t"] <= chunks[j][1] and chunks[j][0] <= p["ret"] for j in p["in"]):
+            return ("journal-poll-misplaced", "address %s polled at %d..%d is in chunks %s only, none of which spans that time"
+                    % (p["ip"], p["t"], p["ret"], p["in"]))
+        if len([q for q in acc if q["ip"] == p["ip"]]) == 1 and len(p["in"]) > 1:
+            return ("journal-chunk-written-twice", "address %s polled once (at %d) and is in %d chunks: %s of %s"
+                    % (p["ip"], p["t"], len(p["in"]), p["in"], d["chunks"]))
+    for j, (s, e, card) in enumerate(chunks):
+        want = len(set(p["ip"] for p in acc if j in p["in"]))
+        if card != want:
+            return ("journal-writer", "chunk %d [%d,%d] counts %d distinct addresses; %d of the polled addresses are in it" % (j, s, e, card, want))
+    sets = {u: set() for u in range(5)}
+    for tk in toks:
+        if tk[0] == "z":
+            sets = {u: set() for u in range(5)}
+        elif tk[0] == "p":
+            t, ip, ty, out = tk[1:].split(".")
+            if out == "a":
+                sets[int(ty) if int(ty) < 4 else 4].add(ip)
+    want = [len(sets[u]) for u in range(4)] + [sum(len(x) for x in sets.values())]
+    if d["uniq"].split(".") != [str(x) for x in want]:
+        return ("unique-address-count", "unique-address figures (4 types, total) are %s; the distinct addresses per type are %s"
+                % (d["uniq"], ".".join(map(str, want))))
+    return None
+
+
+def prop_jsoak(line, impl):
+    a = line.split(" ")
+    if impl.startswith("!fatal"):
+        return ("journal-unserialised-access", "%s goroutines polling through IPC.ProxyPolls with the distinct-IP journal attached: the Go runtime "
+                "stopped the broker process (%s) - two polls inside the journal writer at once" % (a[2], impl[7:].replace("_", " ")))
+    d = {k: int(v) for k, v in kv(impl).items()}
+    what = "%s goroutines x %s polls through IPC.ProxyPolls, every poll from its own address, journal interval %s us, every journal Write takes %s us: " % tuple(a[2:6])
+    if d["lost"]:
+        return ("journal-poll-lost-during-flush", what + "%d of the %d accepted polls are in NO chunk of the journal (read back with the journal's own "
+                "timestamps after a final flush): polls that arrived while another poll was in the disk write of a flush" % (d["lost"], d["polls"]))
+    if d["tiled"] != 1 or d["twice"]:
+        return ("journal-chunk-written-twice", what + "the chunks do not tile the time line / hold an address twice (tiled=%d, sum of the chunk "
+                "cardinals minus the cardinal of their union=%d)" % (d["tiled"], d["twice"]))
+    if d["misplaced"]:
+        return ("journal-poll-misplaced", what + "%d polls are only in chunks whose span does not meet the time the poll was in flight" % d["misplaced"])
+    if d["polls"] != int(a[2]) * int(a[3]):
+        return ("journal-broker", "polls=%d" % d["polls"])
+    return None
+
+
+def gen_jconc(ctx):
+    rng = ctx.rng
+    thorough = ctx.tier == "thorough"
+    lines, kinds = [], []
+    def add(k, ops, kind):
+        lines.append("%s jconc %d %s" % (AREA, k, ",".join(ops))); kinds.append(kind)
+    P = lambda t, ip, ty=0, out="a": "p%d.%d.%d.%s" % (t, ip, ty, out)
+    # two polls fill the first chunk; the poll at 5 finds the interval elapsed and flushes; its Write is held; n polls arrive;
+    # the disk answers at r.  r - 5 <= k: the arrivals join the holder's new sketch; r - 5 > k: the first arrival flushes again
+    for k in (1, 2, 3):
+        for n in (1, 2, 4):
+            for rel in (1, k, k + 1, k + 3):
+                t0 = 2 + k + 1                      # first instant with lastWriteTime + k + 1/2 < now
+                ops = [P(1, 1), P(2, 2), "h%d" % (t0 - 1) if t0 - 1 > 2 else "h%d" % t0]
+                th = t0 if t0 - 1 > 2 else t0 + 1   # the holder's instant
+                ops.append(P(th, 3))
+                for i in range(n):
+                    ops.append(P(th + 1 + i, 10 + i, ty=rng.choice([0, 0, 1, 5])))
+                r = th + n + rel
+                ops += ["r%d" % r, P(r + 1, 30), "f%d" % (r + k + 3)]
+                add(k, ops, "jconc-polls-arrive-during-flush")
+    # the arrivals are the holder's address / addresses of the chunk being written / rejected and portless polls
+    add(2, [P(1, 1), P(2, 2), "h4", P(5, 3), P(6, 3), P(7, 1), P(8, 2, 1), "r9", "f12"], "jconc-arrivals-repeat-addresses")
+    add(2, [P(1, 1), "h4", P(5, 2), P(6, 3, 0, "r"), P(7, 4, 0, "n"), P(8, 5), "r9", P(10, 3), "f13"], "jconc-arrivals-not-accepted")
+    # the gate is armed but the next poll has no flush to do: it returns; a later one is held
+    add(3, [P(1, 1), "h2", P(3, 2), P(4, 3), P(6, 4), P(7, 5), "r9", "f10"], "jconc-hold-armed-early")
+    add(5, [P(1, 1), "h2", P(3, 2), "r4", "f5"], "jconc-hold-never-reached")
+    # two held flushes in one history, a metrics period ending in between
+    add(2, [P(1, 1), "h3", P(4, 2), P(5, 3), "r6", "z7", "h9", P(10, 1), P(11, 3), P(12, 4), "r14", "f18"], "jconc-two-held-flushes")
+    add(1, ["h2", P(3, 1), P(4, 2), "r5", "h7", P(8, 3), P(9, 1), "r13", P(14, 2), "f16"], "jconc-two-held-flushes")
+    add(2, ["f1"], "jconc-trivial")
+    for _ in range(25 if not thorough else 400):
+        k = rng.choice([1, 2, 2, 3])
+        t, ops, ip = 0, [], 0
+        for _ in range(rng.randrange(1, 4)):
+            for _ in range(rng.randrange(0, 4)):                 # quiet polls
+                t += rng.choice([1, 1, 2, k + 1]); ip += 1
+                ops.append(P(t, rng.choice([ip, rng.randrange(1, ip + 1)]), rng.choice([0, 0, 1, 4])))
+            if rng.random() < 0.25:
+                t += 1; ops.append("z%d" % t)
+            t += rng.choice([1, k + 1, k + 2]); ops.append("h%d" % t); t += 1
+            for _ in range(rng.randrange(1, 6)):                 # the first of these that has a flush to do is held
+                ip += 1
+                ops.append(P(t, rng.choice([ip, rng.randrange(1, ip + 1)]), rng.choice([0, 0, 1, 4]), rng.choice("aaaaarn"))); t += 1
+            t += rng.choice([0, 1, k, k + 2]); ops.append("r%d" % t)
+        ops.append("f%d" % (t + rng.choice([1, 2, k + 2])))
+        add(k, ops, "jconc-random")
+    # unforced: many goroutines, a journal whose every Write is slow
+    soaks = [(4, 150, 2000, 500), (8, 100, 3000, 1000)] if not thorough else \
+            [(4, 150, 2000, 500), (8, 100, 3000, 1000), (4, 150, 400, 200), (8, 60, 250, 300), (8, 700, 500, 300), (16, 350, 300, 500), (32, 180, 1000, 1000), (3, 1900, 200, 100),
+             (64, 90, 2000, 1500), (2, 2500, 150, 50)]
+    sl = ["%s jsoak %d %d %d %d" % (AREA, g, n, iv, w) for (g, n, iv, w) in soaks]
+    return lines, kinds, sl, ["jsoak"] * len(sl)
+
+
 # ---------------------------------------------------------------- journal sink that fails
 def parse_lines(tok):
     """-> list of None (unparsable line) | (start, end, card)"""
@@ -685,6 +914,11 @@ def key_of(line, impl, model):
             return (prop_jipc(line, impl) or ("journal-broker", None))[0]
         except (ValueError, KeyError, IndexError):
             return "journal-broker"
+    if op in ("jconc", "jsoak"):
+        try:
+            return ((prop_jconc if op == "jconc" else prop_jsoak)(line, impl) or ("journal-concurrent-polls", None))[0]
+        except (ValueError, KeyError, IndexError):
+            return "journal-concurrent-polls"
     if op in ("jwf", "jipcf"):
         try:
             return ((prop_jwf if op == "jwf" else prop_jipcf)(line, impl) or ("journal-failing-sink", None))[0]
@@ -757,6 +991,7 @@ def run(ctx):
     lines, kinds = gen_round8(ctx)
     ctx.correspond(exe, lines, kinds, label="round8", prop=prop, key_of=key_of, impl_args=DRV_ARGS)
     os.environ["VERIF_C19_GEOIP_DIR"] = os.path.join(vlib.REPO, "broker")
+    os.environ["VERIF_C19_GEOIP_ALT_DIR"] = write_alt_geoip()
     lines, kinds = gen_ipc(ctx)
     ctx.correspond(exe, lines, kinds, label="broker-ipc-metrics", prop=prop, key_of=key_of, impl_args=DRV_ARGS)
     jexe = vlib.go_build("./zz_verif/c19journal")
@@ -768,12 +1003,16 @@ def run(ctx):
     # the journal behind the real IPC.ProxyPolls (call site: every accepted poll is recorded at its instant)
     lines, kinds = gen_jipc(ctx)
     ctx.correspond(exe, lines + fb, kinds + fbk, label="broker-journal-call-site", prop=prop, key_of=key_of, impl_args=DRV_ARGS)
+    # concurrent polls while the journal's disk is slow (the journal call site is serialised by metrics.lock only)
+    lines, kinds, sl, sk = gen_jconc(ctx)      # the soaks run in child processes of the driver (a runtime fatal ends only the child)
+    ctx.correspond(exe, lines + sl, kinds + sk, label="broker-journal-concurrent-polls", prop=prop, key_of=key_of, impl_args=DRV_ARGS)
 
 
 def replay(ctx, doc):
     os.environ["VERIF_DRIVER"] = "1"
     exe = vlib.go_test_build("./broker", name="broker_c19.test")
     os.environ["VERIF_C19_GEOIP_DIR"] = os.path.join(vlib.REPO, "broker")
+    os.environ["VERIF_C19_GEOIP_ALT_DIR"] = write_alt_geoip()
     bad = 0
     for v in doc.get("violations", []):
         case = v["replay"].get("case")
